@@ -65,7 +65,7 @@ type CrashCase struct {
 
 func genCrash(t *rapid.T) CrashCase {
 	c := CrashCase{L: model.GenLayout(t, model.LayoutOpts{MaxTotal: 160 << 10, MaxPieces: 24, MaxFiles: 4})}
-	c.Point = rapid.SampledFrom([]string{"write-entry", "write-exit", "write-exit", "write-entry", "after-complete", "after-stop", "after-verify"}).Draw(t, "point")
+	c.Point = rapid.SampledFrom([]string{"write-entry", "write-exit", "write-exit", "write-entry", "after-complete", "after-stop", "after-verify", "write-error", "write-error"}).Draw(t, "point")
 	c.K = rapid.IntRange(0, 24).Draw(t, "k")
 	c.DelayMs = rapid.SampledFrom([]int{0, 0, 2, 10, 30}).Draw(t, "delay")
 	c.ResumeMs = rapid.SampledFrom([]int{1, 2, 5}).Draw(t, "resume")
@@ -118,6 +118,14 @@ func (f killFile) WriteAt(p []byte, off int64) (int, error) {
 	if c.Point == "write-entry" && k == c.K {
 		time.Sleep(time.Duration(c.DelayMs) * time.Millisecond)
 		die()
+	}
+	if c.Point == "write-error" && k == c.K {
+		// the disk is full: nothing is written; the client stops the torrent with the error, the process dies a little later
+		go func() {
+			time.Sleep(time.Duration(20+c.DelayMs) * time.Millisecond)
+			die()
+		}()
+		return 0, syscall.ENOSPC
 	}
 	n, err := f.File.WriteAt(p, off)
 	if c.Point == "write-exit" && k == c.K {
